@@ -53,4 +53,21 @@ theorem postWitnessAndTxs_ok (h : Bytes → Bytes) (flags : Nat) (i : PostIn)
         · simp [heq] at hr
 
 
+theorem sum_weight (txs : List Tx) :
+    (txs.map (fun t => 3 * t.noWitSize + t.size)).sum = 3 * (txs.map (·.noWitSize)).sum + (txs.map (·.size)).sum := by
+  induction txs with
+  | nil => rfl
+  | cons t ts ih => simp only [List.map_cons, List.sum_cons, ih]; omega
+
+/-- `List.find?` on the reversed list returns the LAST element of the list that satisfies the predicate -/
+theorem find_reverse_last (p : Bytes → Bool) (l : List Bytes) (x : Bytes) (h : l.reverse.find? p = some x) :
+    ∃ pre suf, l = pre ++ x :: suf ∧ p x = true ∧ ∀ y ∈ suf, p y = false := by
+  obtain ⟨hp, as, bs, hl, hno⟩ := List.find?_eq_some_iff_append.mp h
+  refine ⟨bs.reverse, as.reverse, ?_, hp, ?_⟩
+  · have := congrArg List.reverse hl
+    simpa using this
+  · intro y hy
+    have := hno y (List.mem_reverse.mp hy)
+    simpa using this
+
 end GocoinV.Proofs.C05
